@@ -15,7 +15,7 @@ use std::path::PathBuf;
 pub static SPEC: PropSpec = PropSpec {
     id: "C16",
     level: "exploration",
-    rule: "projects: 24 scenario families instantiated over package names drawn from {Geo, GeoShapes, Lib, LibX, P1, P10, Ab, Abc, Util, MainUtil, Core, Main..} so that implementing / using packages are proper prefixes of owners and vice versa: impl of a trait for a type placed in the type's package, the trait's package (legal), a third package, Main (orphans), twice in one package across files (duplicate), inherent impl on a foreign type; a package-qualified use without import in 9 syntactic positions (call, type in signature, struct literal, struct pattern, enum constructor, enum pattern, dyn type, impl header, generic bound) in Main and in the second file of a library whose first file does import; transitive use; import of a missing package; package declaration that differs from the directory; import cycles of length 1-3; equally named types with impls of one trait in two packages; each accepted project also with decoy packages (same item names, own impls) added and imported. expected: accept + exact stdout, or reject without internal error. non-trivial: every scenario instance; distinct by source hash",
+    rule: "projects: 31 scenario families instantiated over package names drawn from {Geo, GeoShapes, Lib, LibX, P1, P10, Ab, Abc, Util, MainUtil, Core, Main..} so that implementing / using packages are proper prefixes of owners and vice versa: impl of a trait for a type placed in the type's package, the trait's package (legal), a third package, Main (orphans), twice in one package across files, with one or both headers qualifying the trait by the package's own name (duplicates), inherent impl on a foreign type; a package-qualified use without import in 9 syntactic positions (call, type in signature, struct literal, struct pattern, enum constructor, enum pattern, dyn type, impl header, generic bound) in Main and in the second file of a library whose first file does import; transitive use; import of a missing package; package declaration that differs from the directory; import cycles of length 1-3; equally named types with impls of one trait in two packages; each accepted project also with decoy packages (same item names, own impls) added and imported. expected: accept + exact stdout, or reject without internal error. non-trivial: every scenario instance; distinct by source hash",
     eval_counter: "scenarios",
     assumptions: &["observed through the whole-program entry point (C14 checks that check/build/link agrees with it); behaviour through gomini"],
     crash_is_violation: false,
@@ -179,6 +179,39 @@ fn scenarios(rng: &mut Rng) -> Vec<Scenario> {
         type_pkg(&mut p, d, &[], "");
         p.file("Main", "main.gom", &[t], &format!("fn main() {{\n    let _ = string_println(int32_to_string({}::Tr::m(7)));\n    ()\n}}\n", t));
         out.push(Scenario { family: "duplicate-impl-same-file", proj: p, expect: Expect::Reject });
+    }
+    // 7b. duplicate impls where one header qualifies the trait with the package's own name
+    for (fam, first_q, second_q) in [("duplicate-impl-second-self-qualified", false, true), ("duplicate-impl-first-self-qualified", true, false), ("duplicate-impl-both-self-qualified", true, true)] {
+        let q = |yes: bool| if yes { "Main::Show" } else { "Show" };
+        let mut p = Proj::new();
+        p.file(
+            "Main",
+            "main.gom",
+            &[],
+            &format!(
+                "trait Show {{\n    fn show(Self) -> int32;\n}}\n\nstruct Foo {{ v: int32 }}\n\nimpl {} for Foo {{\n    fn show(self: Foo) -> int32 {{ 1 }}\n}}\n\nimpl {} for Foo {{\n    fn show(self: Foo) -> int32 {{ 2 }}\n}}\n\nfn main() {{\n    let _ = string_println(int32_to_string(Show::show(Foo {{ v: 0 }})));\n    ()\n}}\n",
+                q(first_q),
+                q(second_q)
+            ),
+        );
+        out.push(Scenario { family: fam, proj: p, expect: Expect::Reject });
+    }
+    {
+        // the duplicate in another file of Main
+        let mut p = Proj::new();
+        p.file("Main", "a_impl.gom", &[], "impl Show for Foo {\n    fn show(self: Foo) -> int32 { 1 }\n}\n");
+        p.file("Main", "main.gom", &[], "trait Show {\n    fn show(Self) -> int32;\n}\n\nstruct Foo { v: int32 }\n\nfn main() {\n    let _ = string_println(int32_to_string(Show::show(Foo { v: 0 })));\n    ()\n}\n");
+        p.file("Main", "z_impl.gom", &[], "impl Main::Show for Foo {\n    fn show(self: Foo) -> int32 { 2 }\n}\n");
+        out.push(Scenario { family: "duplicate-impl-self-qualified-other-file", proj: p, expect: Expect::Reject });
+        // control: a single self-qualified impl is legal
+        let mut p = Proj::new();
+        p.file("Main", "main.gom", &[], "trait Show {\n    fn show(Self) -> int32;\n}\n\nstruct Foo { v: int32 }\n\nimpl Main::Show for Foo {\n    fn show(self: Foo) -> int32 { 41 }\n}\n\nfn main() {\n    let _ = string_println(int32_to_string(Show::show(Foo { v: 0 })));\n    ()\n}\n");
+        out.push(Scenario { family: "self-qualified-impl-control", proj: p, expect: Expect::Accept("41\n".to_string()) });
+        // the same in a library package
+        let mut p = Proj::new();
+        p.file(d, "lib.gom", &[], &format!("trait Show {{\n    fn show(Self) -> int32;\n}}\n\nstruct Foo {{ v: int32 }}\n\nfn mk() -> Foo {{ Foo {{ v: 0 }} }}\n\nimpl Show for Foo {{\n    fn show(self: Foo) -> int32 {{ 1 }}\n}}\n\nimpl {}::Show for Foo {{\n    fn show(self: Foo) -> int32 {{ 2 }}\n}}\n", d));
+        p.file("Main", "main.gom", &[d], &format!("fn main() {{\n    let _ = string_println(int32_to_string({}::Show::show({}::mk())));\n    ()\n}}\n", d, d));
+        out.push(Scenario { family: "duplicate-impl-self-qualified-in-library", proj: p, expect: Expect::Reject });
     }
     // 8. inherent impl on a foreign type
     {
